@@ -446,6 +446,11 @@ class WFSA:
                 R = U[a]
                 W = sum(R.values(), start=self.R.zero)
 
+                # no mass on this symbol (no arcs, or only zero-weight arcs such
+                # as those `push` leaves towards dead states): nothing to normalize
+                if W == self.R.zero:
+                    continue
+
                 if 0:
                     # If we cannot extract a common factor, then all of the arcs will have weight one
                     yield a, frozendict(R), self.R.one
